@@ -120,7 +120,7 @@ def e2e_state_cases(rng, tier):
     for kind in ("implicit", "code"):
         for sent in sts:
             for exp in sts:
-                for via in ("arg", "ctor"):
+                for via in ("arg", "ctor", "kwarg"):
                     out.append({"op": "e2e_state", "kind": kind, "state_sent": sent, "state_expected": exp, "via": via, "code": "c0de+ /", "token": "t0k"})
     return out
 
@@ -324,7 +324,7 @@ def _record_requests(c):
         def close(self):
             pass
     s = OAuth2Session(c["client_id"], c["client_secret"] if c["auth"] != "none" else None, token_endpoint_auth_method=c["auth"],
-                      scope=c["scope"], redirect_uri=c["redirect_uri"], token_placement=c["placement"])
+                      scope=c["scope"], redirect_uri=c["redirect_uri"], token_placement=c["placement"], **({"state": c["ctor_state"]} if "ctor_state" in c else {}))
     s.mount("https://", A())
     return s, rec
 
@@ -342,7 +342,8 @@ def _record_httpx(c, is_async):
         return handler(request)
     cls = AsyncOAuth2Client if is_async else OAuth2Client
     s = cls(c["client_id"], c["client_secret"] if c["auth"] != "none" else None, token_endpoint_auth_method=c["auth"], scope=c["scope"],
-            redirect_uri=c["redirect_uri"], token_placement=c["placement"], transport=httpx.MockTransport(ahandler if is_async else handler))
+            redirect_uri=c["redirect_uri"], token_placement=c["placement"], transport=httpx.MockTransport(ahandler if is_async else handler),
+            **({"state": c["ctor_state"]} if "ctor_state" in c else {}))
     return s, rec
 
 
@@ -585,11 +586,11 @@ def e2e_state(c):
     out = {}
     base = {"client_id": "cid", "client_secret": "sec", "auth": "client_secret_post", "scope": None, "redirect_uri": None, "placement": "header", "token": c["token"]}
     for name, mk, is_async in (("requests", _record_requests, False), ("httpx", lambda x: _record_httpx(x, False), False), ("async", lambda x: _record_httpx(x, True), True)):
-        s, rec = mk(base)
+        s, rec = mk(dict(base, ctor_state=c["state_expected"]) if c["via"] == "kwarg" else base)
         kw = {}
         if c["via"] == "arg":
             kw["state"] = c["state_expected"]
-        else:
+        elif c["via"] == "ctor":
             s.state = c["state_expected"]
         try:
             if c["kind"] == "implicit":
@@ -676,7 +677,8 @@ def oracle(c, out):
             bad(f"extract_basic_authorization raised {out['raised']}", kind="crash", exc=out["raised"])
     elif op == "bearer":
         t = c["token"]
-        if t and not any(ch.isspace() for ch in t) and out["split"] != [hx("Bearer"), hx(t)]:
+        # (only white space at the token's edges cannot survive the header's "Bearer<SP>token" framing)
+        if t and t.strip() == t and out["split"] != [hx("Bearer"), hx(t)]:
             bad("bearer token in header not recovered", kind="roundtrip", placement="header")
         exp = pairs(c["existing"].encode()) + [[hx("access_token"), hx(t)]]
         if out["parsed"] != exp:
